@@ -139,7 +139,7 @@ class TimeTriggerDecorator(TriggerDecorator):
                     # clock has to be compared with the local trigger time itself (as the legacy loop does)
                     #
                     now = dt_now()
-                    timeout = (time_next - now).total_seconds()
+                    timeout = trigger.secs_until(time_next, now)
                     if timeout <= 1e-6:
                         break
                     _LOGGER.debug("%s additional sleep for %s seconds", self, timeout)
